@@ -155,6 +155,7 @@ type Stats struct {
 	Unwinds                                     int
 	Terms                                       int
 	CacheHits                                   int
+	ModelHits                                   int
 }
 
 func (s *Stats) add(o *Stats) {
@@ -179,6 +180,7 @@ func (s *Stats) add(o *Stats) {
 	s.Unwinds += o.Unwinds
 	s.Terms += o.Terms
 	s.CacheHits += o.CacheHits
+	s.ModelHits += o.ModelHits
 }
 
 // PathResult is what one run (one decision prefix) produced.
@@ -239,6 +241,10 @@ type Exec struct {
 	unsatCache map[string]bool
 	uuidCounter int
 	schedPos    int
+	lastModel   map[*smt.Term]uint64
+	lastEval    *smt.Evaluator
+	modelPCLen  int
+	modelFresh  bool
 	clockTick   int
 	syncs      map[*Value]*syncSt
 	resched    bool
@@ -345,11 +351,81 @@ func (e *Exec) feasible(c *smt.Term) bool {
 	if c.IsFalse() {
 		return false
 	}
+	// a model of an earlier query that also satisfies what was added since, the guards and c, is a witness
+	if e.lastModel != nil && e.cfg.Enc == "bv" {
+		ev := e.lastEval
+		ok := true
+		for _, p := range e.pc[e.modelPCLen:] {
+			if v, k := ev.Eval(p); !k || v != 1 {
+				ok = false
+				break
+			}
+		}
+		if ok {
+			e.modelPCLen = len(e.pc)
+			if len(e.guards) > 0 {
+				if v, k := ev.Eval(e.guardConj()); !k || v != 1 {
+					ok = false
+				}
+			}
+		}
+		if ok {
+			if v, k := ev.Eval(c); k && v == 1 {
+				e.stats.ModelHits++
+				return true
+			}
+		} else {
+			e.lastModel = nil
+		}
+	}
 	r := e.query(e.cfg.FeasTimeoutS, c)
 	if r == smt.Sat {
+		if e.cfg.Enc == "bv" {
+			e.captureModel()
+		}
 		e.sol.EndModel()
 	}
 	return r != smt.Unsat
+}
+
+// captureModel reads the values of all declared integer/boolean variables from the solver's model.
+func (e *Exec) captureModel() {
+	var vs []*smt.Term
+	for _, v := range e.ctx.Vars {
+		if v.Sort.K == smt.KInt || v.Sort.K == smt.KBool {
+			vs = append(vs, v)
+		}
+	}
+	vals, err := e.sol.Values(vs)
+	if err != nil {
+		e.lastModel = nil
+		return
+	}
+	m := map[*smt.Term]uint64{}
+	for i, v := range vs {
+		if vals[i] == "" {
+			if v.Sort.K == smt.KInt {
+				// undeclared variable: any value of its interval
+				if v.Lo.Sign() < 0 {
+					m[v] = uint64(v.Lo.Int64()) & maskW(v.Sort)
+				} else {
+					m[v] = v.Lo.Uint64()
+				}
+			} else {
+				m[v] = 0
+			}
+			continue
+		}
+		bits, ok := smt.ParseValue(vals[i], v.Sort)
+		if !ok {
+			e.lastModel = nil
+			return
+		}
+		m[v] = bits
+	}
+	e.lastModel = m
+	e.lastEval = smt.NewEvaluator(m)
+	e.modelPCLen = len(e.pc)
 }
 
 // decideN takes an n-way decision whose alternatives have the given conditions.
@@ -606,6 +682,26 @@ func (e *Exec) violationFromModel(kind, label, where string) Violation {
 		var vals2 []string
 		if len(ts2) > 0 {
 			vals2, _ = e.sol.Values(ts2)
+			// terms the solver has no definition for are evaluated under the model's variable values
+			if e.lastEval == nil || e.modelFresh == false {
+				e.captureModel()
+			}
+			for i2, t2 := range ts2 {
+				if i2 < len(vals2) && vals2[i2] == "" && e.lastEval != nil {
+					if bits, ok := e.lastEval.Eval(t2); ok {
+						switch t2.Sort.K {
+						case smt.KBool:
+							if bits == 1 {
+								vals2[i2] = "true"
+							} else {
+								vals2[i2] = "false"
+							}
+						case smt.KInt:
+							vals2[i2] = fmt.Sprintf("(_ bv%d %d)", bits, t2.Sort.W)
+						}
+					}
+				}
+			}
 		}
 		k := 0
 		for _, x := range o.vals {
